@@ -4,6 +4,7 @@ package main
 
 import (
 	"fmt"
+	"go/token"
 	"go/types"
 	"sort"
 	"strings"
@@ -355,6 +356,35 @@ func tokenSource(m *Model, v ssa.Value, d int) bool {
 				}
 			}
 		}
+		// the Token of another syntax node (`fn.Token` of an identifier the caller built): a parser token when every
+		// store to that node type's Token field in the module stores one
+		if fa, ok := x.X.(*ssa.FieldAddr); ok && x.Op == token.MUL && fieldName(fa.X.Type(), fa.Field) == "Token" {
+			if nt := ptrNamed(fa.X.Type()); nt != nil && nt.Obj().Pkg() != nil && shortPkg(nt.Obj().Pkg().Path()) == "ast" {
+				n := 0
+				for _, f := range m.ModFns {
+					if f.Blocks == nil || isUserPkg(fnPkgPath(f)) {
+						continue
+					}
+					for _, b := range f.Blocks {
+						for _, in := range b.Instrs {
+							st, isSt := in.(*ssa.Store)
+							if !isSt {
+								continue
+							}
+							fa2, isFA := st.Addr.(*ssa.FieldAddr)
+							if !isFA || fa2.Field != fa.Field || ptrNamed(fa2.X.Type()) == nil || !types.Identical(ptrNamed(fa2.X.Type()), nt) {
+								continue
+							}
+							n++
+							if !tokenSource(m, st.Val, d+1) {
+								return false
+							}
+						}
+					}
+				}
+				return n > 0
+			}
+		}
 	}
 	return false
 }
@@ -426,4 +456,13 @@ func (m *Model) fieldHoldsOnly(fa *ssa.FieldAddr, fn *ssa.Function) bool {
 		}
 	}
 	return n > 0
+}
+
+// ptrNamed: the named struct type behind a pointer (or the named type itself).
+func ptrNamed(t types.Type) *types.Named {
+	if p, ok := t.Underlying().(*types.Pointer); ok {
+		t = p.Elem()
+	}
+	nt, _ := t.(*types.Named)
+	return nt
 }
